@@ -73,6 +73,15 @@ def cases(tier, seed):
     for n in range(1, N + 2):
         for nm in xf_names(n, n, hermitian=True):
             out.append({"key": f"xf/n={n}/{nm}", "grp": "xf", "n": n, "xf": nm})
+    # distinct eigenvalues closer than any "looks repeated" heuristic (relative gaps 3e-6, 8e-6, 2^-30) next to well separated ones
+    CLOSE = [[1.0, 1.0 + 3e-6, 0.5], [2.0, 2.0 + 8e-6, 2.0 + 1.6e-5, -1.0], [-3.0, -3.0 - 2.0 ** -30 * 3, 1.0, 4.0], [1.0, 1.0 + 2.0 ** -20, 1.0 + 2.0 ** -19, 1.0 + 3 * 2.0 ** -20, 7.0]]
+    for ci, lam in enumerate(CLOSE):
+        for kind in ("mono", "hh"):
+            out.append({"key": f"spec/close/{ci}/{kind}", "grp": "spec", "n": len(lam), "lam": lam, "kind": kind, "scale": 0})
+    # graded tridiagonal part of a rank-one matrix s s^H with geometrically decaying |s_k| (hard for the symmetric tridiagonal eigensolvers)
+    for n, ratio in ((16, 10.0), (24, 4.0), (30, 3.0), (12, 10.0)):
+        for q in (False, True):
+            out.append({"key": f"gradedr1/n={n}/ratio={ratio:g}/quat={int(q)}", "grp": "gradedr1", "n": n, "ratio": ratio, "quat": q})
     for n in (1, 2, 3):
         out.append({"key": f"reject/nonsquare/{n}x{n + 1}", "grp": "rej", "sub": "nonsquare", "n": n})
         out.append({"key": f"reject/nonherm/{n}", "grp": "rej", "sub": "nonherm", "n": n})
@@ -116,6 +125,16 @@ def make_input(case, seed):
         fill = G.Fill(seed, stream=hash_tag(case["key"]))
         A, lay = xf_build(case["xf"], n, n, fill, hermitian=True)
         case["_lay"] = lay
+        return A, None
+    if grp == "gradedr1":
+        sk = [case["ratio"] ** (-k) for k in range(n)]
+        A = np.zeros((n, n, 4))
+        for k in range(n):
+            A[k, k, 0] = sk[k] * sk[k]
+            if k + 1 < n:
+                ph = G.SIGNED_UNITS[(2 * k + 3) % 8].astype(float) if case["quat"] else np.array([1.0, 0, 0, 0])
+                A[k + 1, k] = ph * (sk[k] * sk[k + 1])
+                A[k, k + 1] = A[k + 1, k] * O.CONJ
         return A, None
     if grp == "laplace":
         A = np.zeros((n, n, 4))
